@@ -31,7 +31,7 @@ def run(index, rep):
     constructions = collect_constructions(food)
     rep.note_analysed("Food_constructions_in_Food", len(constructions))
     rep.guard(labels, constructions, rep)
-    rep.guard(mul, food, rep)
+    rep.guard(mul, food, rep, index)
     rep.guard(lanes, constructions, food, uc, rep)
     rep.guard(purity, food, rep)
     rep.guard(guards, food, rep)
@@ -320,88 +320,138 @@ def labels(constructions, rep):
 # =============================================================================== C11.MUL
 
 
-def is_label_src(v):
-    import re
-    return bool(re.fullmatch(r"\w+\.(kcals|fat|protein)_units", norm_src(v)))
-
-
-def mul(food, rep):
+def mul(food, rep, index=None):
+    """Food.__mul__ evaluated for every combination of (this a series?, other a Food / a number / an array, other a series?, this a ratio?,
+    other a ratio?): the product carries the units of the non-ratio factor (this quantity's units when the other is the ratio, the other's
+    when only this one is), Food x number keeps this quantity's units (x array: + ' each month'), and the three numbers are the lane-wise
+    products.  Helper methods of Food that __mul__ calls are followed, so extracting or inlining them changes nothing."""
+    from .symx import Interp, Obj, Path, PDict, Opaque, Unsupported, explore, Abort, canon, _Return
+    from .rat import Rat
     rule = "C11.MUL"
     fn = food.get("__mul__")
     if fn is None:
         raise AnalysisError("Food.__mul__ missing")
-    n_blocks = 0
-    from .core import Inliner
-    inl = Inliner(fn)
-    oth = fn.args.args[1].arg
-    THIS, OTHER = "self.is_a_ratio()", f"{oth}.is_a_ratio()"
+    cls = index.cls(FOOD, "Food") if index is not None else None
+    ucls = index.cls(UC, "UnitConversions") if index is not None else None
+    oname = fn.args.args[1].arg
+    n_ok = 0
+    seen_cases = set()
+    for kind in ("food", "number", "array"):
+        def runit(it, kind=kind):
+            it.classes = {"Food": cls, "UnitConversions": ucls}
 
-    def ctest(t):
-        """test/assert text with the local ratio flags replaced by the calls that define them"""
-        return inl.src(t)
+            def mk(name):
+                return Obj(cls, {"kcals": Rat.atom((name, "kcals")), "fat": Rat.atom((name, "fat")), "protein": Rat.atom((name, "protein")),
+                                 "kcals_units": Path((name, "kcals_units")), "fat_units": Path((name, "fat_units")),
+                                 "protein_units": Path((name, "protein_units"))}, name)
 
-    def visit(block, other_is_food, path):
-        nonlocal n_blocks
-        chosen = {}  # label local -> set of sources assigned in this block (under is_a_ratio selection)
-        asserted = set()
-        for st in block:
-            if isinstance(st, ast.Assert):
-                t = ctest(st.test)
-                asserted.add(t)
-            if isinstance(st, ast.If):
-                t = ctest(st.test)
-                sub_food = other_is_food or t == f"isinstance({oth}, Food)"
-                if t in (THIS, OTHER):
-                    for s in st.body:
-                        if isinstance(s, ast.Assign) and isinstance(s.targets[0], ast.Name) and is_label_src(s.value):
-                            chosen.setdefault(s.targets[0].id, set()).add((t, norm_src(s.value)))
-                    continue
-                visit(st.body, sub_food, path + [t])
-                visit(st.orelse, other_is_food and t != f"isinstance({oth}, Food)", path + ["not " + t])
-            if isinstance(st, ast.Assign) and isinstance(st.targets[0], ast.Name) and is_label_src(st.value):
-                chosen.setdefault(st.targets[0].id, set()).add(("direct", norm_src(st.value)))
-            if isinstance(st, ast.Return) and isinstance(st.value, ast.Call) and dotted(st.value.func) == "Food":
-                c = Construction("__mul__", fn, st.value)
-                labs = [c.args.get(l) for l in LABELS]
-                where = " & ".join(path) or "top"
-                n_blocks += 1
-                if other_is_food:
-                    uses_locals = all(isinstance(e, ast.Name) for e in labs) and len({e.id for e in labs if isinstance(e, ast.Name)}) == 3
-                    ok = uses_locals and all(e.id in chosen for e in labs)
-                    if ok:
-                        # the selection must be: this is the ratio -> other's labels; other is the ratio -> self's (same label lane)
-                        for e, l in zip(labs, LABELS):
-                            for cond, src in chosen[e.id]:
-                                if cond == THIS and src != f"{oth}." + l:
-                                    ok = False
-                                if cond == OTHER and src != "self." + l:
-                                    ok = False
-                                if cond == "direct":
-                                    # a direct choice is only sound under the matching assertion
-                                    need = THIS if src == f"{oth}." + l else OTHER if src == "self." + l else None
-                                    if need is None or need not in asserted:
-                                        ok = False
-                    rep.check(ok, rule, f"Food.__mul__[{where}]",
-                              "Food x Food: the labels selected with is_a_ratio() (ratio x q and q x ratio must both carry q's "
-                              "units) are not the labels passed to the returned Food (dead stores / wrong side)",
-                              loc=loc(FOOD, st), detail="labels passed: " + ", ".join(norm_src(e) if e is not None else "default" for e in labs))
+            me = mk("self")
+            other = mk("other") if kind == "food" else Rat.atom(("number",)) if kind == "number" else Opaque("ndarray")
+
+            def hook(interp, d, a, kw, node):
+                f = node.func
+                if isinstance(f, ast.Attribute) and f.attr in ("is_a_ratio", "is_list_monthly") and not a:
+                    recv = interp.eval(f.value, interp.call_env)
+                    return interp.fork(f"{getattr(recv, 'name', canon(recv))}.{f.attr}()")
+                if isinstance(f, ast.Attribute) and f.attr in ("validate_if_list", "make_sure_is_a_list", "make_sure_not_a_list", "make_sure_fat_protein_zero_if_kcals_is_zero"):
+                    return None
+                if isinstance(f, ast.Attribute) and f.attr in ("get_units", "get_units_from_element_to_list", "get_units_from_list_to_element"):
+                    recv = interp.eval(f.value, interp.call_env)
+                    return Opaque(f"{getattr(recv, 'name', '?')}.{f.attr}()")
+                if d == "isinstance" and len(a) == 2:
+                    tn = a[1].name if isinstance(a[1], Opaque) else canon(a[1])
+                    if "Food" in tn:
+                        return isinstance(a[0], Obj)
+                    if "ndarray" in tn:
+                        return isinstance(a[0], Opaque) and a[0].name == "ndarray"
+                    if isinstance(a[0], Rat):
+                        return tn.split(".")[-1] in ("int", "float") or "int" in tn or "float" in tn
+                    return False
+                if d == "Food":
+                    names = ["kcals", "fat", "protein", "kcals_units", "fat_units", "protein_units"]
+                    out = {n_: v for n_, v in zip(names, a)}
+                    out.update(kw)
+                    return PDict(out)
+                if d in ("np.array", "np.asarray") and len(a) == 1:
+                    return a[0]
+                if d == "np.multiply" and len(a) == 2:
+                    return interp.binop(ast.Mult(), a[0], a[1], node)
+                if d == "type" and len(a) == 1:
+                    return Opaque("type-of-" + canon(a[0]))
+                return NotImplemented
+
+            it.call_hook = hook
+            orig_binop = it.binop
+
+            def binop(op, x, y, node):
+                if isinstance(op, ast.Mult) and (isinstance(x, Opaque) or isinstance(y, Opaque)):
+                    xs = x if isinstance(x, Opaque) else y
+                    other_ = y if isinstance(x, Opaque) else x
+                    return interp_mul_opaque(it, other_, xs)
+                return orig_binop(op, x, y, node)
+
+            it.binop = binop
+            return it.call_function(fn, [other], {}, me), me, other
+
+        try:
+            leaves = explore(runit, month_classes=False)
+        except Unsupported as e:
+            raise AnalysisError(f"Food.__mul__ outside the analysed fragment ({kind}): {e}")
+        for _, dec, res, it in leaves:
+            if isinstance(res, Abort):
+                continue  # an assertion refuses this combination
+            out, me, other = res
+            where = f"{kind}; " + ", ".join(f"{k}={'T' if v else 'F'}" for k, v in dec.items())
+            if not isinstance(out, PDict):
+                rep.violation(rule, f"Food.__mul__[{where}]", "the product is not a Food(...) construction", loc=loc(FOOD, fn))
+                continue
+            labs = [out.d.get(l) for l in LABELS]
+            if kind == "food":
+                s_ratio = dec.get("self.is_a_ratio()")
+                o_ratio = dec.get("other.is_a_ratio()")
+                if o_ratio:
+                    want = [Path(("self", l)) for l in LABELS]
+                elif s_ratio:
+                    want = [Path(("other", l)) for l in LABELS]
                 else:
-                    cl = classify_labels(c, {})
-                    ok = set(cl) in ({"self"}, {"self+each month"})
-                    if set(cl) == {"self+each month"}:
-                        ok = any(f"isinstance({oth}, np.ndarray)" in p for p in path)
-                    rep.check(ok, rule, f"Food.__mul__[{where}]",
-                              "Food x number must keep the operand's labels (x ndarray: + ' each month')", loc=loc(FOOD, st),
-                              detail=str(cl))
-
-    visit(fn.body, False, [])
+                    want = None  # neither is known to be a ratio on this path: must have been refused
+                ok = want is not None and [canon(x) for x in labs] == [canon(x) for x in want]
+                nums_ok = all(isinstance(out.d.get(l), Rat) and out.d[l] == Rat.atom(("self", l)) * Rat.atom(("other", l)) for l in LANES)
+                case = ("food", s_ratio, o_ratio, dec.get("self.is_list_monthly()"), dec.get("other.is_list_monthly()"))
+                rep.check(ok and nums_ok, rule, f"Food.__mul__[Food x Food: {_case(case)}]",
+                          "Food x Food: the product must carry the units of the factor that is not the ratio (this quantity's units when the other "
+                          "one is the ratio, the other's when only this one is) and multiply lane by lane; a combination where neither is a ratio must "
+                          "be refused" + ("" if ok else f" - labels are {[canon(x) for x in labs]}"), loc=loc(FOOD, fn))
+            else:
+                suffix = " each month" if (kind == "array" and dec.get("self.is_list_monthly()") is False) else ""
+                want = [("{self." + l + "}" + suffix) if suffix else canon(Path(("self", l))) for l in LABELS]
+                got = [x if isinstance(x, str) else canon(x) for x in labs]
+                ok = got == want
+                case = (kind, dec.get("self.is_list_monthly()"))
+                rep.check(ok, rule, f"Food.__mul__[Food x {kind}: this a series={case[1]}]",
+                          "Food x number must keep the operand's labels (x ndarray on a single value: + ' each month')" + ("" if ok else f" - labels are {got}"),
+                          loc=loc(FOOD, fn))
+            seen_cases.add(case)
+            n_ok += 1
     r = food.get("__rmul__")
-    ok = r is not None and any(isinstance(s, ast.Return) and norm_src(s.value) == "self.__mul__(other)" for s in r.body)
+    ok = r is not None and any(isinstance(s_, ast.Return) and norm_src(s_.value) in (f"self.__mul__({r.args.args[1].arg})", f"self * {r.args.args[1].arg}") for s_ in r.body)
     rep.check(ok, rule, "Food.__rmul__", "__rmul__ no longer delegates to __mul__ (ratio on the left would be labelled differently)",
               loc=loc(FOOD, r) if r else FOOD)
-    if n_blocks < 6:
-        raise AnalysisError(f"Food.__mul__: only {n_blocks} returning Food constructions recognised")
+    if n_ok < 8:
+        raise AnalysisError(f"Food.__mul__: only {n_ok} completing combinations analysed")
     rep.require_min(rule, 7)
+
+
+def _case(c):
+    kind, s_ratio, o_ratio, s_list, o_list = c
+    f = lambda v: "?" if v is None else ("T" if v else "F")
+    return f"this series={f(s_list)}, other series={f(o_list)}, this ratio={f(s_ratio)}, other ratio={f(o_ratio)}"
+
+
+def interp_mul_opaque(it, x, arr):
+    from .rat import Rat
+    from .symx import canon
+    return Rat.atom(("x-array", canon(x)))
 
 
 # =============================================================================== C11.LANE
@@ -565,6 +615,8 @@ GUARD_EXCEPTIONS = {
 
 def guards(food, rep):
     rule = "C11.GUARD"
+    FOOD_METHODS.clear()
+    FOOD_METHODS.update(food)
     for name, fn in food.items():
         params = [a.arg for a in fn.args.args if a.arg != "self"]
         if any(isinstance(d, ast.Name) and d.id == "staticmethod" for d in fn.decorator_list):
@@ -596,17 +648,41 @@ GUARD_PARAM_EXCEPTIONS = {
 }
 
 
-def is_unit_assert(st, p, method):
-    if not isinstance(st, ast.Assert):
-        return False
-    t = norm_src(st.test)
-    if method == "__mul__":
-        return "is_the_ratio" in t or "is_a_ratio()" in t
-    if method == "min_elementwise":
-        return "food1.units" in t and "food2.units" in t
-    mentions_p = (p + ".units") in t or (p + ".get_units") in t
-    mentions_self = "self.units" in t or "self.get_units" in t
-    return mentions_p and mentions_self and "==" in t
+FOOD_METHODS = {}
+_INL = {}
+
+
+def _inl(fn):
+    from .core import Inliner
+    if id(fn) not in _INL:
+        _INL[id(fn)] = Inliner(fn)
+    return _INL[id(fn)]
+
+
+def is_unit_assert(st, p, method, fn=None, depth=0):
+    """an assertion that the operand's units equal this quantity's (or, for multiplication, that one of the two is a dimensionless
+    ratio) - either as an `assert` statement, or inside a helper method of Food that this statement calls with the operand (one level)"""
+    if isinstance(st, ast.Assert):
+        t = _inl(fn).src(st.test) if fn is not None else norm_src(st.test)
+        if method == "__mul__" or "is_a_ratio()" in t:
+            return "is_a_ratio()" in t or "is_the_ratio" in t
+        if method == "min_elementwise":
+            return "food1.units" in t and "food2.units" in t
+        mentions_p = (p + ".units") in t or (p + ".get_units") in t
+        mentions_self = "self.units" in t or "self.get_units" in t
+        return mentions_p and mentions_self and "==" in t
+    if depth == 0 and isinstance(st, (ast.Assign, ast.Expr, ast.AnnAssign)) and getattr(st, "value", None) is not None:
+        for c in ast.walk(st.value):
+            if isinstance(c, ast.Call) and isinstance(c.func, ast.Attribute) and isinstance(c.func.value, ast.Name) and c.func.value.id == "self" \
+                    and c.func.attr in FOOD_METHODS:
+                callee = FOOD_METHODS[c.func.attr]
+                cparams = [a.arg for a in callee.args.args if a.arg != "self"]
+                for i, a in enumerate(c.args):
+                    if isinstance(a, ast.Name) and a.id == p and i < len(cparams):
+                        # an unconditional (top-level) assertion of the helper
+                        if any(is_unit_assert(s2, cparams[i], method if method == "__mul__" else c.func.attr, callee, 1) for s2 in callee.body):
+                            return True
+    return False
 
 
 def _reads(node, p):
@@ -650,7 +726,7 @@ def guard_paths(fn, p, method):
         if not stmts:
             return cont(decided, asserted)
         st, rest = stmts[0], stmts[1:]
-        if is_unit_assert(st, p, method):
+        if is_unit_assert(st, p, method, fn):
             return run(rest, shapes, decided, True, cont)
         if isinstance(st, ast.If):
             if _reads(st.test, p) and not asserted:
